@@ -546,6 +546,114 @@ theorem pipeline_per_center {α γ : Type} [Zero α] (s : Shape) (m : Vox → Bo
   rw [eval_per_center par hpar evalF rdmOf width data _ _ pts (by simp [volumeSearchlight])]
   simp [volumeSearchlight, List.zip_map', List.map_map, Function.comp_def]
 
+/-! ### 5c. the keywords forwarded at every call site of `eval_function` (round 6) -/
+
+/-- **regenerated leaf**: `evaluate_models_searchlight` has at least one call site of
+    `eval_function`, and **every** call site (serial path, parallel path, through `partial` /
+    `delayed`) forwards both `method=method` and `theta=theta`.  A call site that drops a keyword
+    (seeded C19-10: the `n_jobs == 1` path without `theta`) makes this statement false. -/
+theorem eval_forwarding_leaf :
+    0 < nCallSites ∧ ∀ k, k < nCallSites → callSite k = (true, true) := by
+  decide
+
+/-- a call through any call site of the source hands the evaluation function exactly the
+    caller's `(models, x, method, theta)` — whatever the defaults of its signature -/
+theorem call_site_forwards_all {M Me Θ τ γ : Type} (evalFn : M → τ → Me → Θ → γ)
+    (dMethod : Me) (dTheta : Θ) (a : EvalArgs M Me Θ) (k : Nat) (hk : k < nCallSites) (x : τ) :
+    callEval evalFn dMethod dTheta a k x = evalFn a.models x a.method a.theta := by
+  unfold callEval callEvalAt
+  rw [eval_forwarding_leaf.2 k hk]
+  rfl
+
+/-- **per-centre value with every forwarded keyword**: under joblib's / the serial loop's
+    ordering contract, for every number of jobs and every dispatch of tasks to call sites of the
+    source, entry `i` of `evaluate_models_searchlight(sl_RDM, models, eval_function, method, theta,
+    n_jobs)` is `eval_function(models, sl_RDM[i], method=method, theta=theta)` with `sl_RDM[i]` the
+    RDM computed directly from the columns of searchlight `i` — the defaults of the evaluation
+    function never show -/
+theorem eval_per_center_kw {α M Me Θ γ : Type} [Zero α]
+    (par : Nat → List (List α × Nat) → (List α × Nat → γ) → List γ)
+    (hpar : ∀ nj ts f, par nj ts f = ts.map f)
+    (route : Nat → List α × Nat → Nat) (hroute : ∀ nj x, route nj x < nCallSites)
+    (evalFn : M → List α × Nat → Me → Θ → γ) (dMethod : Me) (dTheta : Θ) (a : EvalArgs M Me Θ)
+    (nJobs : Nat)
+    (rdmOf : List (List α) → List α) (width : Nat) (data : List (List α)) (centers : List Nat)
+    (neighbors : List (List Nat)) (pts : List Nat)
+    (hlen : neighbors.length = centers.length) :
+    evalSearchlightKw par route evalFn dMethod dTheta a nJobs
+        (slResult rdmOf width data centers neighbors pts)
+      = (neighbors.zip centers).map
+          (fun p => evalFn a.models (rdmOf (selectCols data p.1), p.2) a.method a.theta) := by
+  have h := eval_per_center (par nJobs) (hpar nJobs)
+    (fun x => callEval evalFn dMethod dTheta a (route nJobs x) x) rdmOf width data centers
+    neighbors pts hlen
+  unfold evalSearchlightKw
+  unfold evalSearchlight at h
+  rw [h]
+  exact List.map_congr_left (fun p _ => call_site_forwards_all evalFn dMethod dTheta a _
+    (hroute nJobs _) _)
+
+/-- the same for slot-per-task collection under every completion order that runs every task -/
+theorem eval_per_center_kw_any_schedule {α M Me Θ γ : Type} [Zero α] (sched : Nat → List Nat)
+    (route : Nat → List α × Nat → Nat) (hroute : ∀ nj x, route nj x < nCallSites)
+    (evalFn : M → List α × Nat → Me → Θ → γ) (dMethod : Me) (dTheta : Θ) (a : EvalArgs M Me Θ)
+    (nJobs : Nat)
+    (rdmOf : List (List α) → List α) (width : Nat) (data : List (List α)) (centers : List Nat)
+    (neighbors : List (List Nat)) (pts : List Nat)
+    (hlen : neighbors.length = centers.length)
+    (hs : ∀ i, i < centers.length → i ∈ sched nJobs) :
+    evalSearchlightKw (fun nj => parCollect (sched nj)) route evalFn dMethod dTheta a nJobs
+        (slResult rdmOf width data centers neighbors pts)
+      = (neighbors.zip centers).map
+          (fun p => some (evalFn a.models (rdmOf (selectCols data p.1), p.2) a.method a.theta)) := by
+  have h := eval_per_center_any_schedule (sched nJobs)
+    (fun x => callEval evalFn dMethod dTheta a (route nJobs x) x) rdmOf width data centers
+    neighbors pts hlen hs
+  unfold evalSearchlightKw
+  unfold evalSearchlight at h
+  simp only
+  rw [h]
+  exact List.map_congr_left (fun p _ => congrArg some
+    (call_site_forwards_all evalFn dMethod dTheta a _ (hroute nJobs _) _))
+
+/-- **results are identical across `n_jobs`**: two runs with different numbers of jobs, different
+    dispatches to call sites and different (contract-keeping) executors return the same list -/
+theorem eval_njobs_agree {α M Me Θ γ : Type} [Zero α]
+    (par : Nat → List (List α × Nat) → (List α × Nat → γ) → List γ)
+    (hpar : ∀ nj ts f, par nj ts f = ts.map f)
+    (route : Nat → List α × Nat → Nat) (hroute : ∀ nj x, route nj x < nCallSites)
+    (evalFn : M → List α × Nat → Me → Θ → γ) (dMethod : Me) (dTheta : Θ) (a : EvalArgs M Me Θ)
+    (n₁ n₂ : Nat)
+    (rdmOf : List (List α) → List α) (width : Nat) (data : List (List α)) (centers : List Nat)
+    (neighbors : List (List Nat)) (pts : List Nat)
+    (hlen : neighbors.length = centers.length) :
+    evalSearchlightKw par route evalFn dMethod dTheta a n₁
+        (slResult rdmOf width data centers neighbors pts)
+      = evalSearchlightKw par route evalFn dMethod dTheta a n₂
+        (slResult rdmOf width data centers neighbors pts) := by
+  rw [eval_per_center_kw par hpar route hroute evalFn dMethod dTheta a n₁ rdmOf width data centers
+        neighbors pts hlen,
+      eval_per_center_kw par hpar route hroute evalFn dMethod dTheta a n₂ rdmOf width data centers
+        neighbors pts hlen]
+
+/-- the whole pipeline from the mask, keywords included -/
+theorem pipeline_per_center_kw {α M Me Θ γ : Type} [Zero α] (s : Shape) (m : Vox → Bool) (r thr : K)
+    (par : Nat → List (List α × Nat) → (List α × Nat → γ) → List γ)
+    (hpar : ∀ nj ts f, par nj ts f = ts.map f)
+    (route : Nat → List α × Nat → Nat) (hroute : ∀ nj x, route nj x < nCallSites)
+    (evalFn : M → List α × Nat → Me → Θ → γ) (dMethod : Me) (dTheta : Θ) (a : EvalArgs M Me Θ)
+    (nJobs : Nat)
+    (rdmOf : List (List α) → List α) (width : Nat) (data : List (List α)) (pts : List Nat) :
+    evalSearchlightKw par route evalFn dMethod dTheta a nJobs
+        (slResult rdmOf width data (volumeSearchlight s m r thr).1 (volumeSearchlight s m r thr).2 pts)
+      = (goodCenters s m r thr).map (fun c =>
+          evalFn a.models
+            (rdmOf (selectCols data ((neighborsAlgo s (ctrOf c) r).map (ravel s))), ravel s c)
+            a.method a.theta) := by
+  rw [eval_per_center_kw par hpar route hroute evalFn dMethod dTheta a nJobs rdmOf width data _ _ pts
+    (by simp [volumeSearchlight])]
+  simp [volumeSearchlight, List.zip_map', List.map_map, Function.comp_def]
+
 /-! ### non-vacuity: concrete objects meeting the hypotheses -/
 
 -- a 2×3×4 volume, centre (0,1,2), radius 3/2: 14 voxels, algorithm order ≠ C order
@@ -619,5 +727,23 @@ example : (evalSearchlight (fun ts f => ts.map f) (fun t => t.2)
           (volumeSearchlight (2, 2, 1) (fun v => decide (v ≠ (1, 1, 0))) (3 / 2 : Rat) (1 / 2)).1
           (volumeSearchlight (2, 2, 1) (fun v => decide (v ≠ (1, 1, 0))) (3 / 2 : Rat) (1 / 2)).2 []))
         = [0, 1, 2] := by decide +kernel
+
+-- round 6: hypotheses of `eval_per_center_kw` / `eval_njobs_agree`: a contract-keeping executor and a
+-- dispatch into the call sites of the source exist (`route = 0 < nCallSites`); the evaluation function
+-- `method·1000 + theta·100 + Σ rdm + centre` depends on both keywords and its defaults (0, 0) differ
+-- from the caller's (2, 5), so "theta reaches every centre" is a real constraint: a call site that
+-- drops `theta` (`(true, false)`, the serial path of seeded C19-10) returns another value
+example : (∀ (nj : Nat) (ts : List (List Nat × Nat)) (f : List Nat × Nat → Nat),
+        (fun _ ts f => ts.map f) nj ts f = ts.map f)
+    ∧ (∀ (nj : Nat) (x : List Nat × Nat), (fun _ _ => 0) nj x < nCallSites)
+    ∧ evalSearchlightKw (fun _ ts f => ts.map f) (fun _ _ => 0)
+        (fun (_ : Unit) t (me th : Nat) => me * 1000 + th * 100 + t.1.sum + t.2) 0 0 ⟨(), 2, 5⟩ 1
+        (slResult (fun sub => sub.map List.sum) 0 [[1, 2, 3, 4], [5, 6, 7, 8]] [9, 7, 8]
+          [[0, 1], [1, 2, 3], [3]] []) = [2523, 2537, 2520]
+    ∧ callEvalAt (true, false) (fun (_ : Unit) (t : List Nat × Nat) (me th : Nat) =>
+        me * 1000 + th * 100 + t.1.sum + t.2) 0 0 ⟨(), 2, 5⟩ ([3, 11], 9) = 2023
+    ∧ callEvalAt (true, true) (fun (_ : Unit) (t : List Nat × Nat) (me th : Nat) =>
+        me * 1000 + th * 100 + t.1.sum + t.2) 0 0 ⟨(), 2, 5⟩ ([3, 11], 9) = 2523 := by
+  refine ⟨fun _ _ _ => rfl, fun _ _ => (by decide : 0 < nCallSites), by decide, by decide, by decide⟩
 
 end Rsa.Props.C19
